@@ -1,6 +1,7 @@
 """C19 -- stream and process APIs deliver what was sent, split as asked."""
 
 import asyncio
+import errno
 import os
 import re
 import shutil
@@ -68,7 +69,7 @@ REAL = ['asyncssh stream.py (SSHReader/SSHWriter/SSHStreamSession), '
         'process.py (SSHClientProcess/SSHServerProcess, redirection), '
         'channel, connection of both endpoints']
 STUB = ['event loop + clock', 'TCP', 'executor', 'OS randomness']
-PROBES = ['collect_output_polled', 'signal_in_stream', 'mode_editor', 'soft_eof_ended_a_call', 'redirect_target_failed', 'server_side_redirect', 'redirect_switched', 'redirect_concat', 'read_cancelled', 'async_iteration', 'mode_reader', 'mode_run', 'mode_redirect', 'text_mode',
+PROBES = ['closed_while_source_feeds', 'server_hung_up_at_once', 'collect_output_polled', 'signal_in_stream', 'mode_editor', 'soft_eof_ended_a_call', 'redirect_target_failed', 'server_side_redirect', 'redirect_switched', 'redirect_concat', 'read_cancelled', 'async_iteration', 'mode_reader', 'mode_run', 'mode_redirect', 'text_mode',
           'tiny_packets', 'readuntil_multi', 'readuntil_regex',
           'incomplete_read_at_eof', 'limit_overrun', 'exit_signal',
           'exit_status', 'redirect_process', 'redirect_file',
@@ -218,7 +219,12 @@ def gen_plan(rng):
         # the local target of an output redirect fails after this many
         # writes (reset by its far end / disk full)
         plan['target_fault'] = rng.choice([None, None, None, 0, 1, 3, 20]) \
-            if plan['target'] in ('stream_out', 'afile_out') else None
+            if plan['target'] in ('stream_out', 'afile_out', 'fileobj_out') \
+            else None
+        # the application closes the process while the source of its stdin
+        # redirect still has data to give
+        plan['close_mid'] = rng.choice([None, None, 0, 1, 3, 10]) \
+            if plan['target'] in ('stream_in', 'stdin_file') else None
 
     return plan
 
@@ -285,7 +291,8 @@ def valid_plan(plan):
         tf = plan.get('target_fault')
 
         if tf is not None and (not 0 <= tf <= 1000 or plan.get('target')
-                               not in ('stream_out', 'afile_out')):
+                               not in ('stream_out', 'afile_out',
+                                       'fileobj_out')):
             return False
 
         if plan.get('collect_poll') and (len(plan['inp']) > 30 or
@@ -650,7 +657,12 @@ def run_plan(plan, sched_seed=None, sched_replay=None):
 
         async def feed(writer, parts, name):
             for p in parts:
-                writer.write(p)
+                try:
+                    writer.write(p)
+                except BrokenPipeError:
+                    # (the client closed the channel: a command notices
+                    # and stops)
+                    return
 
                 if plan['drain']:
                     try:
@@ -875,18 +887,69 @@ def run_plan(plan, sched_seed=None, sched_replay=None):
                 elif target == 'stdin_file':
                     raw = s_in.encode('utf-8') if text else s_in
 
+                    if plan.get('close_mid') is not None:
+                        # more than the channel takes at once, so that the
+                        # file is still being read when the process closes
+                        raw = (raw or b'x') * (3000 // max(len(raw), 1) + 1)
+
                     with open(path, 'wb') as f:
                         f.write(raw)
 
-                    proc = await conn.create_process('cmd', stdin=path, **kw)
-                    res['run'] = await proc.wait()
+                    if plan.get('close_mid') is not None:
+                        # (a small send buffer: the file reader is paused
+                        # and resumed by window adjusts)
+                        proc = await conn.create_process('cmd', **kw)
+                        proc.channel.set_write_buffer_limits(high=64, low=16)
+                        await proc.redirect_stdin(path, bufsize=128)
+                    else:
+                        proc = await conn.create_process('cmd', stdin=path,
+                                                         **kw)
+
+                    if plan.get('close_mid') is not None:
+                        for _ in range(plan['close_mid']):
+                            await sim.pause('close-mid')
+
+                        sim.probes['closed_while_source_feeds'] += 1
+                        res['closed_mid'] = True
+                        proc.close()
+                        await proc.wait_closed()
+                        res['run'] = 'n/a'
+                    else:
+                        res['run'] = await proc.wait()
+
                     sim.probes['redirect_file'] += 1
                 elif target == 'fileobj_out':
+                    class FullDisk:
+                        """A file whose disk is full after a few writes"""
+
+                        def __init__(self, f, left):
+                            self.f, self.left = f, left
+
+                        def write(self, data):
+                            if self.left <= 0:
+                                res['file_failed'] = True
+                                raise OSError(errno.ENOSPC, 'disk full')
+
+                            self.left -= 1
+                            return self.f.write(data)
+
+                        def fileno(self):
+                            return self.f.fileno()
+
+                        def close(self):
+                            self.f.close()
+
                     with open(path, 'wb') as fobj:
-                        proc = await conn.create_process('cmd', stdout=fobj,
-                                                         **kw)
+                        tf = plan.get('target_fault')
+
+                        if tf is not None:
+                            sim.probes['redirect_target_failed'] += 1
+
+                        proc = await conn.create_process(
+                            'cmd', stdout=fobj if tf is None
+                            else FullDisk(fobj, tf), **kw)
                         await write_stdin(proc)
-                        await proc.wait()
+                        res['run'] = await proc.wait()
 
                     sim.probes['redirect_file'] += 1
                 elif target == 'stderr_stdout':
@@ -969,7 +1032,19 @@ def run_plan(plan, sched_seed=None, sched_replay=None):
                         proc = await conn.create_process('cmd', stdin=rd,
                                                          **kw)
 
-                    res['run'] = await proc.wait()
+                    if target == 'stream_in' and \
+                            plan.get('close_mid') is not None:
+                        for _ in range(plan['close_mid']):
+                            await sim.pause('close-mid')
+
+                        sim.probes['closed_while_source_feeds'] += 1
+                        res['closed_mid'] = True
+                        proc.close()
+                        await proc.wait_closed()
+                        res['run'] = 'n/a'
+                    else:
+                        res['run'] = await proc.wait()
+
                     res['stream'] = got
                     sim.probes['redirect_stream'] += 1
 
@@ -1207,7 +1282,11 @@ def run_plan(plan, sched_seed=None, sched_replay=None):
             elif mode == 'redirect':
                 target = plan['target']
 
-                if target in ('stream_in', 'afile_in', 'process_in'):
+                if res.get('closed_mid'):
+                    # the closing side: what matters is that the call
+                    # returned and the connection survived (below)
+                    pass
+                elif target in ('stream_in', 'afile_in', 'process_in'):
                     if res['srv_in'] != s_in:
                         world.violation(
                             'redirect-mismatch', 'stdin redirected from %s: '
@@ -1299,6 +1378,11 @@ def run_plan(plan, sched_seed=None, sched_replay=None):
                             'sent, or is not a merge of the two' %
                             (None if merged is None else len(merged),
                              len(s_out), len(s_err)), sig=target)
+                elif target == 'fileobj_out' and \
+                        plan.get('target_fault') is not None:
+                    # the target failed (or would have): what matters is
+                    # that the call returned and the connection survived
+                    pass
                 elif target in ('file', 'fileobj_out'):
                     with open(os.path.join(d, 'target.bin'), 'rb') as f:
                         got = f.read()
@@ -1338,7 +1422,7 @@ def run_plan(plan, sched_seed=None, sched_replay=None):
                              else len(res['srv_in']), len(s_in)),
                             sig='stdin_file')
 
-                if res['result']:
+                if res['result'] and not res.get('closed_mid'):
                     check_exit(res['result'][0], res['result'][1], 'wait()')
 
         sim.probes['mode_' + mode] += 1
@@ -1356,7 +1440,8 @@ def run_plan(plan, sched_seed=None, sched_replay=None):
 
         world.open_gate('done')
         world.run_phase()
-        world.check_loop_health(allow_hang=True, loop_errors=False)
+        world.check_loop_health(allow_hang=True, loop_errors=False,
+                                internal_errors=True)
         sample = {'mode': mode, 'text': text, 'window': plan['window'],
                   'pktsize': plan['pktsize'], 'out_units': len(s_out),
                   'err_units': len(s_err), 'in_units': len(s_in),
